@@ -11,7 +11,7 @@ LEVEL = "model_checking"
 
 def mismatches(txt):
     out = {}
-    for m in re.finditer(r'<<"MISMATCH", (\d+), "([^"]+)">>', txt):
+    for m in re.finditer(r'<<\s*"MISMATCH",\s*(\d+),\s*"([^"]+)"\s*>>', txt):
         out.setdefault(int(m.group(1)), set()).add(m.group(2))
     return out
 
@@ -41,7 +41,7 @@ def validate_split(ctx, fam, mod, trace, evs, parts):
                generated=sum(r["generated"] for r in rs), total=len(lines))
     for k, r in enumerate(rs):
         off = cuts[k]
-        out["text"] += re.sub(r'<<"MISMATCH", (\d+), ', lambda m: '<<"MISMATCH", %d, ' % (int(m.group(1)) + off), r["text"]) + "\n"
+        out["text"] += re.sub(r'<<\s*"MISMATCH",\s*(\d+),\s*', lambda m: '<<"MISMATCH", %d, ' % (int(m.group(1)) + off), r["text"]) + "\n"
         if r["matched"] is not None and r["matched"] < cuts[k + 1] - cuts[k] and out["matched"] is None:
             out["matched"] = r["matched"] + off
     return out
